@@ -16,8 +16,28 @@ def go_ip_string(b):
     return "?" + bytes(b).hex()
 
 
+_COLLIDING = None
+
+
+def colliding_exporters():
+    """exporter addresses that collide pairwise under common 32-bit hashes (FNV-1, FNV-1a, CRC-32), precomputed
+    (corpus/data/hash_colliding_exporters.json): anything keyed by a hash of the exporter address confuses them"""
+    global _COLLIDING
+    if _COLLIDING is None:
+        import json, os
+        p = os.path.join(os.path.dirname(os.path.dirname(os.path.dirname(os.path.abspath(__file__)))), "corpus", "data", "hash_colliding_exporters.json")
+        try:
+            d = json.load(open(p))
+            _COLLIDING = [bytes.fromhex(x) for pairs in d.values() for pr in pairs for x in pr]
+        except Exception:
+            _COLLIDING = []
+    return _COLLIDING
+
+
 def rand_addr(rng):
     k = rng.random()
+    if k < 0.06 and colliding_exporters():
+        return rng.choice(colliding_exporters())
     if k < 0.4:
         return bytes(rng.randrange(256) for _ in range(4))
     if k < 0.6:
